@@ -36,18 +36,12 @@ impl<'i> NeverFailedTypedNode<'i, VRule> for VSkip<'i> {
     fn check_with<I: Input<'i>>(input: I, stack: &mut Stack<Span<'i>>) -> (r: I) { unimplemented!() }
 }
 pub trait RuleWrapper<R: RuleType> { const RULE: R; type Rule; }
-// typed_node.rs:51-107 ParsableTypedNode (the two required methods), with the full-match contract of C04:
-// `atomic_entry` is fixed per rule kind from the statement of the property (no trailing skip for atomic and
-// compound-atomic entry rules), not from the macro.
-pub trait ParsableTypedNode<'i, R: RuleType>: TypedNode<'i, R> {
-    spec fn full(c: Ctx<'i>, pos: nat, st: Seq<Span<'i>>) -> bool;
-    fn try_parse_with<I: Input<'i>>(input: I, stack: &mut Stack<Span<'i>>) -> (r: Option<Self>)
-        requires inv(input), stack_all_wf(old(stack)@),
-        ensures (r is Some) == Self::full(input.ctx(), input.off(), old(stack)@.cur);
-    fn try_check_with<I: Input<'i>>(input: I, stack: &mut Stack<Span<'i>>) -> (r: bool)
-        requires inv(input), stack_all_wf(old(stack)@),
-        ensures r == Self::full(input.ctx(), input.off(), old(stack)@.cur);
-}
+// error value of the Result-returning entry points: opaque (R1c: `Box::new(tracker.collect())` is erased with the tracker)
+#[verifier::external_body]
+#[verifier::reject_recursive_types(R)]
+pub struct Error<R> { _p: core::marker::PhantomData<R> }
+#[verifier::external_body]
+fn vf_error<R>() -> (r: Box<Error<R>>) { unimplemented!() }
 // `content.into()` with source type = target type (rule_inner!(.., false)): the identity conversion
 #[verifier::external_body]
 fn shim_into_same<T>(x: T) -> (r: T) ensures r == x, { x.into() }
@@ -68,7 +62,31 @@ KINDS = [
 def build(U):
     wrappers.emit(U)
     U.use('core::marker::PhantomData')
-    U.ghost(ABSTRACT, 'abstract inner / skip nodes, ParsableTypedNode contract')
+    U.ghost(P.ASINPUT_DECL, 'trait AsInput (contract only)')
+    U.ghost(ABSTRACT, 'abstract inner / skip nodes')
+    # ---- trait ParsableTypedNode with its real default methods (typed_node.rs:51-108) --------------------------------
+    tr = U.block_item('main/src/typed_node.rs', r"pub trait ParsableTypedNode<'i, R: RuleType>", 'trait ParsableTypedNode').drop_attrs()
+    tr.text = __import__('vgen').r1_tracker(tr.text.replace('Box::new(tracker.collect())', 'VF_ERR'), tr.log).replace('VF_ERR', 'vf_error::<R>()')
+    tr.log.append(('R1c', 'Err(Box::new(tracker.collect())) -> Err(vf_error::<R>())  x4 (error value erased with the tracker)'))
+    tr.prepend_in_block('''    // C04: the full match of this rule kind; fixed per rule kind from the statement of the property
+    // (no trailing skip for atomic and compound-atomic entry rules), not from the macro
+    spec fn full(c: Ctx<'i>, pos: nat, st: Seq<Span<'i>>) -> bool;''')
+    REQ = '        requires inv(input), stack_all_wf(old(stack)@),'
+    tr.ret('r', fname='try_parse_with'); tr.contract(REQ + '\n        ensures (r is Some) == Self::full(input.ctx(), input.off(), old(stack)@.cur),', fname='try_parse_with')
+    tr.ret('r', fname='try_check_with'); tr.contract(REQ + '\n        ensures r == Self::full(input.ctx(), input.off(), old(stack)@.cur),', fname='try_check_with')
+    # entry points: fresh stack per call (C18), delegate to the rule's own full / partial match (C04, C03)
+    ENTRY = '        requires input.valid(),\n        ensures (r is Ok) == %s,'
+    FULL = "Self::full(input.as_ctx(), input.as_ctx().start, Seq::<Span<'i>>::empty())"
+    PART = "(Self::sem(input.as_ctx(), input.as_ctx().start, Seq::<Span<'i>>::empty()) is Some)"
+    tr.ret('r', fname='try_parse'); tr.contract(ENTRY % FULL, fname='try_parse')
+    tr.ret('r', fname='try_check'); tr.contract(ENTRY % FULL, fname='try_check')
+    tr.ret('r', fname='try_parse_partial')
+    tr.contract(ENTRY % PART + "\n                r is Ok ==> (r->Ok_0).0.off() == (Self::sem(input.as_ctx(), input.as_ctx().start, Seq::<Span<'i>>::empty())->0).0,", fname='try_parse_partial')
+    tr.ret('r', fname='try_check_partial')
+    tr.contract(ENTRY % PART + "\n                r is Ok ==> (r->Ok_0).off() == (Self::sem(input.as_ctx(), input.as_ctx().start, Seq::<Span<'i>>::empty())->0).0,", fname='try_check_partial')
+    for fn in ('try_parse', 'try_check', 'try_parse_partial', 'try_check_partial'):
+        tr.body_start("        proof { assert(stack_all_wf(StackView::<Span<'i>> { cur: Seq::empty(), snaps: Seq::empty() })); }", fname=fn)
+    U.emit(tr)
     for name, inner, emission, atomic in KINDS:
         st = U.block_item('expanded', r'pub struct %s<' % name, 'struct ' + name).drop_attrs()
         st.text = re.sub(r'^(\s*)_phantom:', r'\1pub _phantom:', st.text, flags=re.M)
